@@ -203,10 +203,22 @@ func (ex *Exec) havocLoop(st *State, fr *Frame, l *Loop) {
 		for fi := len(st.frames) - 1; fi >= 0; fi-- {
 			f := st.frames[fi]
 			if cur, ok := f.cells[a]; ok {
+				et := a.Type().(*types.Pointer).Elem()
 				if _, isT := cur.(Term); !isT {
-					ex.unsupportedf("loop modifies cell %s holding a tracked pointer/closure", a.Comment)
+					if pt, isPtr := types.Unalias(et).Underlying().(*types.Pointer); isPtr {
+						// a loop-carried tracked pointer becomes a pointer of unknown origin
+						b := ex.fresh("lptr_"+a.Comment, SInt)
+						st.assume(and(ge(b, intLit(0)), lt(b, st.alloc)))
+						np := &PtrV{Base: b, Root: pt.Elem()}
+						if !ex.isModelStruct(pt.Elem()) {
+							np.Opaque = true
+						}
+						f.cells[a] = np
+						break
+					}
+					ex.unsupportedf("loop modifies cell %s holding a tracked closure", a.Comment)
 				}
-				f.cells[a] = ex.freshOfType(st, "cell_"+a.Comment, a.Type().(*types.Pointer).Elem())
+				f.cells[a] = ex.freshOfType(st, "cell_"+a.Comment, et)
 				break
 			}
 		}
